@@ -29,11 +29,34 @@ pub fn case_c03_wire(t: &mut Tape, ctx: &CaseCtx) -> CaseResult {
     let mut retries = 0;
     let mut last_meta_of_ok: Option<MetaView> = None;
     let mut n_requests = 0;
+    let mut uc_requests: Vec<usize> = vec![];
+    let mut last_uc_answer_authentic: Option<bool> = None;
     for (i, op) in h.log.iter().enumerate() {
         let around = Some((i.saturating_sub(3), (i + 3).min(h.log.len())));
         match op {
-            Op::Http { uri, body, view, method, .. } => {
+            Op::HttpDone { n, answer } if uc_requests.contains(n) => {
+                last_uc_answer_authentic = match answer {
+                    HttpAnswer::Response { authentic, .. } => Some(*authentic),
+                    _ => None,
+                };
+            }
+            Op::Took(EventView::Result(ResultView::Err(e))) if e == "request:cup-validation" => {
+                // the simulated server signs over the body and cup2key it received: an authentic answer can only fail
+                // verification if the metadata kept for it is not that of the request that went out
+                if last_uc_answer_authentic == Some(true) {
+                    return Err(failure(
+                        "retained-metadata-not-the-wire-request",
+                        "an answer signed by the server over exactly the request it received was rejected by the verifier: the request metadata kept for verification does not hold the body / key id / nonce that were sent".to_string(),
+                        &h,
+                        around,
+                    ));
+                }
+            }
+            Op::Http { uri, body, view, method, n, .. } => {
                 n_requests += 1;
+                if matches!(view, Some(v) if v.kind == ReqKind::UpdateCheck) {
+                    uc_requests.push(*n);
+                }
                 if method != "POST" {
                     return Err(failure("method", format!("method {method}"), &h, around));
                 }
